@@ -238,6 +238,12 @@ type MixFractionObject struct {
 // But changes to the mix settings need to be kept separate from LanceroSource.distrubuteData,
 // which is part of the data-*production* step, not the data-processing step.
 func (s *SourceControl) ConfigureMixFraction(mfo *MixFractionObject, reply *bool) error {
+	// Mix requests are served by the running source's block-assembly goroutine. Without a running
+	// source nobody would ever answer, and the caller would wait forever.
+	if !s.isSourceActive || !s.ActiveSource.Running() {
+		*reply = false
+		return fmt.Errorf("no source is active")
+	}
 	currentMix, err := s.ActiveSource.ConfigureMixFraction(mfo)
 	*reply = (err == nil)
 	s.broadcastMixState(currentMix)
